@@ -76,6 +76,7 @@ class Runner:
         self.close_end_emitted = False
         self.known_msgs = set()
         self.pending_lines = []
+        self.torn_down = False
         orig_send = self.session.send
 
         def send(message):
@@ -330,6 +331,8 @@ class Runner:
         self._cmd_done(first)
 
     def _inner_request(self):
+        if self.torn_down:
+            return
         n = len(self.rpcs) + 1
         before = len(self.sent)
         try:
@@ -349,6 +352,7 @@ class Runner:
 
     def finish_all(self):
         """Release every thread so that the process can go on (worker may stay parked; daemon)."""
+        self.torn_down = True
         self.conn_release.set()
         try:
             if self.ctl.parked and self.ctl.parked[0] != 'stopped':
